@@ -117,3 +117,113 @@ Proof.
   apply bind_ok in H as (u1 & _ & H). apply bind_ok in H as (u2 & _ & H). apply bind_ok in H as (blc & _ & H).
   apply Ok_inj, pair_equal_spec in H as [<- _]. exact Hc.
 Qed.
+
+(* ---------------------------------------------------------------- group / program fee buckets untouched *)
+Definition gp_same (b b' : bank) : Prop := b_grp b' = b_grp b /\ b_prog b' = b_prog b.
+
+Lemma gp_same_refl b : gp_same b b.
+Proof. unfold gp_same. repeat split; reflexivity. Qed.
+Lemma gp_same_trans a b c : gp_same a b -> gp_same b c -> gp_same a c.
+Proof. unfold gp_same. intros (?&?) (?&?). split; congruence. Qed.
+
+Ltac gp_refl := unfold gp_same; cbn; split; reflexivity.
+
+Lemma gp_set_tas v b : gp_same b (set_b_tas v b). Proof. gp_refl. Qed.
+Lemma gp_set_tls v b : gp_same b (set_b_tls v b). Proof. gp_refl. Qed.
+Lemma gp_set_ins v b : gp_same b (set_b_ins v b). Proof. gp_refl. Qed.
+Lemma gp_set_asv v b : gp_same b (set_b_asv v b). Proof. gp_refl. Qed.
+Lemma gp_set_last_update v b : gp_same b (set_b_last_update v b). Proof. gp_refl. Qed.
+Lemma gp_dec_lend b : gp_same b (dec_lend b). Proof. gp_refl. Qed.
+Lemma gp_dec_bor b : gp_same b (dec_bor b). Proof. gp_refl. Qed.
+
+Lemma gp_update_counts b ha hl ha' hl' : gp_same b (update_counts b ha hl ha' hl').
+Proof.
+  unfold update_counts, inc_lend, dec_lend, inc_bor, dec_bor.
+  destruct (negb ha && ha'), (ha && negb ha'), (negb hl && hl'), (hl && negb hl'); gp_refl.
+Qed.
+
+Lemma gp_change_asset b sh byp b' : change_asset_shares b sh byp = Ok b' -> gp_same b b'.
+Proof. intros H. apply change_asset_shares_inv in H as ->. apply gp_set_tas. Qed.
+Lemma gp_change_liab b sh byp b' : change_liability_shares b sh byp = Ok b' -> gp_same b b'.
+Proof. intros H. apply change_liability_shares_inv in H as ->. apply gp_set_tls. Qed.
+
+Lemma gp_claim b bl now b1 bl1 : claim_emissions b bl now = Ok (b1, bl1) -> gp_same b b1.
+Proof.
+  intros H. destruct (claim_emissions_core _ _ _ _ _ H) as [C _].
+  destruct C as (_&_&_&_&_&G&P&_). unfold gp_same. split; assumption.
+Qed.
+
+Lemma gp_increase b bl now delta t b' bl' : increase_balance b bl now delta t = Ok (b', bl') -> gp_same b b'.
+Proof.
+  unfold increase_balance. intros H.
+  apply bind_ok in H as ([b0 bl0] & Hc & H). apply gp_claim in Hc.
+  apply bind_ok in H as (cur_l & _ & H). apply bind_ok in H as (d0 & _ & H). apply bind_ok in H as (u & _ & H).
+  apply bind_ok in H as (ash & _ & H). apply bind_ok in H as (a' & _ & H).
+  apply bind_ok in H as (b1 & H1 & H). apply gp_change_asset in H1.
+  apply bind_ok in H as (lsh & _ & H). apply bind_ok in H as (nl & _ & H). apply bind_ok in H as (l' & _ & H).
+  apply bind_ok in H as (b2 & H2 & H). apply gp_change_liab in H2.
+  apply Ok_inj, pair_equal_spec in H as [<- _].
+  eapply gp_same_trans; [exact Hc|]. eapply gp_same_trans; [exact H1|].
+  eapply gp_same_trans; [exact H2|]. apply gp_update_counts.
+Qed.
+
+Lemma gp_decrease b bl now delta t b' bl' : decrease_balance b bl now delta t = Ok (b', bl') -> gp_same b b'.
+Proof.
+  unfold decrease_balance. intros H.
+  apply bind_ok in H as ([b0 bl0] & Hc & H). apply gp_claim in Hc.
+  apply bind_ok in H as (cur_a & _ & H). apply bind_ok in H as (d0 & _ & H). apply bind_ok in H as (u & _ & H).
+  apply bind_ok in H as (ash & _ & H). apply bind_ok in H as (nash & _ & H). apply bind_ok in H as (a' & _ & H).
+  apply bind_ok in H as (b1 & H1 & H). apply gp_change_asset in H1.
+  apply bind_ok in H as (lsh & _ & H). apply bind_ok in H as (l' & _ & H).
+  apply bind_ok in H as (b2 & H2 & H). apply gp_change_liab in H2.
+  apply bind_ok in H as (u2 & _ & H).
+  apply Ok_inj, pair_equal_spec in H as [<- _].
+  eapply gp_same_trans; [exact Hc|]. eapply gp_same_trans; [exact H1|].
+  eapply gp_same_trans; [exact H2|]. apply gp_update_counts.
+Qed.
+
+Lemma gp_withdraw_all b bl now b' bl' n : withdraw_all b bl now = Ok (b', bl', n) -> gp_same b b'.
+Proof.
+  unfold withdraw_all. intros H.
+  apply bind_ok in H as ([b0 bl0] & Hc & H). apply gp_claim in Hc.
+  apply bind_ok in H as (cur_a & _ & H). apply bind_ok in H as (cur_l & _ & H).
+  apply bind_ok in H as (u1 & _ & H). apply bind_ok in H as (u2 & _ & H). apply bind_ok in H as (blc & _ & H).
+  apply bind_ok in H as (nsh & _ & H). apply bind_ok in H as (b2 & H2 & H). apply gp_change_asset in H2.
+  apply bind_ok in H as (u3 & _ & H). apply bind_ok in H as (fl & _ & H). apply bind_ok in H as (dust & _ & H).
+  apply bind_ok in H as (ins & _ & H). apply bind_ok in H as (n' & _ & H).
+  apply Ok_inj, pair_equal_spec in H as [H _]. apply pair_equal_spec in H as [<- _].
+  eapply gp_same_trans; [exact Hc|]. eapply gp_same_trans; [apply gp_dec_lend|].
+  eapply gp_same_trans; [exact H2|]. apply gp_set_ins.
+Qed.
+
+Lemma gp_repay_all b bl now b' bl' n : repay_all b bl now = Ok (b', bl', n) -> gp_same b b'.
+Proof.
+  unfold repay_all. intros H.
+  apply bind_ok in H as ([b0 bl0] & Hc & H). apply gp_claim in Hc.
+  apply bind_ok in H as (cur_l & _ & H). apply bind_ok in H as (cur_a & _ & H).
+  apply bind_ok in H as (u1 & _ & H). apply bind_ok in H as (u2 & _ & H). apply bind_ok in H as (blc & _ & H).
+  apply bind_ok in H as (nsh & _ & H). apply bind_ok in H as (b2 & H2 & H). apply gp_change_liab in H2.
+  apply bind_ok in H as (ce & _ & H). apply bind_ok in H as (dust & _ & H).
+  apply bind_ok in H as (ins & _ & H). apply bind_ok in H as (n' & _ & H).
+  apply Ok_inj, pair_equal_spec in H as [H _]. apply pair_equal_spec in H as [<- _].
+  eapply gp_same_trans; [exact Hc|]. eapply gp_same_trans; [apply gp_dec_bor|].
+  eapply gp_same_trans; [exact H2|]. apply gp_set_ins.
+Qed.
+
+Lemma gp_socialize b loss b' kill : socialize_loss b loss = Ok (b', kill) -> gp_same b b'.
+Proof.
+  unfold socialize_loss. intros H. apply bind_ok in H as (total & _ & H).
+  destruct (total <=? loss).
+  - apply Ok_inj, pair_equal_spec in H as [<- _]. apply gp_set_asv.
+  - apply bind_ok in H as (d & _ & H). apply bind_ok in H as (nsv & _ & H).
+    apply Ok_inj, pair_equal_spec in H as [<- _]. apply gp_set_asv.
+Qed.
+
+Lemma gp_close_balance b bl now b' bl' : close_balance b bl now = Ok (b', bl') -> gp_same b b'.
+Proof.
+  unfold close_balance. intros H.
+  apply bind_ok in H as ([b0 bl0] & Hc & H). apply gp_claim in Hc.
+  apply bind_ok in H as (cur_l & _ & H). apply bind_ok in H as (cur_a & _ & H).
+  apply bind_ok in H as (u1 & _ & H). apply bind_ok in H as (u2 & _ & H). apply bind_ok in H as (blc & _ & H).
+  apply Ok_inj, pair_equal_spec in H as [<- _]. exact Hc.
+Qed.
